@@ -6,6 +6,7 @@ import (
 	"fmt"
 	"math/big"
 	"math/rand"
+	"os"
 	"sort"
 	"strings"
 	"time"
@@ -70,6 +71,8 @@ type avsRun struct {
 	opers      []*avsOp
 	nextID     map[string]uint64
 	optedIn    map[string]map[string]bool // avs -> operator -> opted in (model)
+	taskAcct   map[string]*sim.Account    // avs (lower) -> account of its current task contract
+	released   []*sim.Account             // task contracts an AVS moved away from
 	// signersLeave: operators that submitted a result tend to opt out before the statistics are taken
 	signersLeave bool
 }
@@ -174,12 +177,25 @@ func (a *avsRun) run(long bool) {
 		if r.Intn(4) == 0 {
 			minSelf = uint64(1 + r.Intn(1_000_000_000))
 		}
-		task := acct.Eth
+		taskAcct := acct
+		if r.Intn(2) == 0 {
+			taskAcct = sim.NewAccount(fmt.Sprintf("task-%s-%d", a.hist, k)) // a task contract of its own
+			w.Fund(taskAcct)
+		}
+		task := taskAcct.Eth
 		if k == 1 && r.Intn(2) == 0 {
-			task = a.avs[0].Eth // a task address that already belongs to another AVS
+			if prev := a.taskAcct[low(a.avs[0].Eth.String())]; prev != nil {
+				task = prev.Eth // a task address that already belongs to another AVS
+			}
 		}
 		st := a.call("avs_register", acct, "registerAVS", a.registerArgs(a.owner, acct, fmt.Sprintf("avs%d", k), task, minSelf, []string{lst.ID})...)
 		a.judgeRegister(st, acct, task)
+		if st.Ack {
+			if a.taskAcct == nil {
+				a.taskAcct = map[string]*sim.Account{}
+			}
+			a.taskAcct[low(acct.Eth.String())] = taskAcct
+		}
 		if r.Intn(3) == 0 {
 			// the same AVS address once more
 			st := a.call("avs_register", acct, "registerAVS", a.registerArgs(a.owner, acct, fmt.Sprintf("avs%d-again", k), acct.Eth, 0, []string{lst.ID})...)
@@ -233,8 +249,11 @@ func (a *avsRun) run(long bool) {
 		epochs = 14 + r.Intn(10)
 	}
 	for e := 0; e < epochs && !w.Dead; e++ {
-		if len(a.tasks) < 5 && r.Intn(3) > 0 {
+		if len(a.tasks) < 6 && r.Intn(3) > 0 {
 			a.createTask()
+		}
+		if r.Intn(14) == 0 || (len(a.tasks) > 0 && len(a.released) == 0 && r.Intn(6) == 0) {
+			a.switchTaskContract()
 		}
 		if r.Intn(7) == 0 || (a.signersLeave && r.Intn(2) == 0) {
 			// membership changes while tasks are running
@@ -339,15 +358,26 @@ func (a *avsRun) createTask() {
 	}
 	resp, stat, chal := uint64(r.Intn(4)), uint64(r.Intn(4)), uint64(r.Intn(4))
 	hash := sha256.Sum256([]byte(fmt.Sprintf("task-%s-%d", a.hist, len(a.tasks))))
-	st := a.call("task_create", av, "createTask", a.owner.Eth, fmt.Sprintf("task%d", len(a.tasks)), hash[:], resp, chal, uint64(60), stat)
+	tc := a.taskAcct[low(av.Eth.String())]
+	if tc == nil {
+		return
+	}
+	st := a.call("task_create", tc, "createTask", a.owner.Eth, fmt.Sprintf("task%d", len(a.tasks)), hash[:], resp, chal, uint64(60), stat)
 	s.Eval("task-creation")
 	s.Case(fmt.Sprintf("task_create|periods=%d/%d/%d|ack=%v", resp, stat, chal, st.Ack))
+	s.Case(fmt.Sprintf("task_create|own-task-contract=%v|contract-switched-before=%v|ack=%v", tc != av, len(a.released) > 0, st.Ack))
+	if !st.Ack && len(a.released) > 0 && os.Getenv("VERIF_AVS_DEBUG") != "" {
+		fmt.Println("AVS-DEBUG create after switch failed:", st.Err)
+	}
 	if !st.Ack {
 		return
 	}
-	taddr := av.Eth.String()
+	taddr := tc.Eth.String()
 	want := a.nextID[low(taddr)] + 1
 	ti, err := w.C.App.AVSManagerKeeper.GetTaskInfo(w.C.Ctx(), fmt.Sprint(want), taddr)
+	if os.Getenv("VERIF_AVS_DEBUG") != "" {
+		fmt.Printf("AVS-DEBUG created avs=%s tc=%s own=%v want=%d err=%v released=%d\n", av.Name, tc.Name, tc != av, want, err, len(a.released))
+	}
 	if err != nil || ti.TaskId != want {
 		s.Violate("task-id-not-consecutive", "", a.hist, st.I, "task contract %s: expected the new task to have id %d (error %v)", taddr, want, err)
 		// resynchronise on whatever was stored
@@ -491,7 +521,12 @@ func (a *avsRun) submission(t *avsTask, outsider *avsOp) {
 func (a *avsRun) challenge(t *avsTask) {
 	w, r, s := a.w, a.r, a.s
 	var avs *sim.Account
-	for _, x := range a.avs {
+	for _, x := range a.taskAcct {
+		if x.Eth.String() == t.addr {
+			avs = x
+		}
+	}
+	for _, x := range a.released {
 		if x.Eth.String() == t.addr {
 			avs = x
 		}
@@ -554,6 +589,9 @@ func (a *avsRun) judgeStatistics(t *avsTask) {
 	if len(signers) == 0 {
 		site = "no-results"
 	}
+	if _, ok := a.taskAddrOf[low(t.addr)]; !ok {
+		site += "|task-contract-released" // the AVS moved to another task contract while this task was running
+	}
 	if strings.Join(got, ",") != strings.Join(signers, ",") {
 		s.Violate("signer-list-differs-from-accepted-results", site, a.hist, len(w.Steps), "task %s/%d: stored signers %v, accepted results from %v", t.addr, t.id, short(got), short(signers))
 	}
@@ -606,3 +644,39 @@ func short(l []string) []string {
 }
 
 var _ = sdk.AccAddress{}
+
+// switchTaskContract: an AVS moves to another task contract (a new one, or one that another AVS released); task
+// identifiers are per task contract, so the counters must follow the contract, not the AVS.
+func (a *avsRun) switchTaskContract() {
+	w, r, s := a.w, a.r, a.s
+	av := a.avs[r.Intn(len(a.avs))]
+	addr := low(av.Eth.String())
+	if !a.reg[addr] || a.taskAcct[addr] == nil {
+		return
+	}
+	old := a.taskAcct[addr]
+	var next *sim.Account
+	if len(a.released) > 0 && r.Intn(2) == 0 {
+		next = a.released[r.Intn(len(a.released))]
+	} else {
+		next = sim.NewAccount(fmt.Sprintf("task-%s-switch-%d", a.hist, len(a.released)+len(a.tasks)))
+		w.Fund(next)
+	}
+	if next == old {
+		return
+	}
+	owner, taken := a.taskAddrOf[low(next.Eth.String())]
+	st := a.call("avs_update", av, "updateAVS", a.registerArgs(a.owner, av, "", next.Eth, 0, []string{w.Assets[0].ID})...)
+	s.Eval("avs-update-task-contract")
+	s.Case(fmt.Sprintf("avs_update|task-address-taken=%v|ack=%v", taken && owner != addr, st.Ack))
+	if !st.Ack {
+		return
+	}
+	if taken && owner != addr {
+		s.Violate("task-address-registered-to-two-avs", "update", a.hist, st.I, "task address %s belongs to AVS %s and was accepted for AVS %s by an update", next.Eth, owner, addr)
+	}
+	delete(a.taskAddrOf, low(old.Eth.String()))
+	a.taskAddrOf[low(next.Eth.String())] = addr
+	a.taskAcct[addr] = next
+	a.released = append(a.released, old)
+}
